@@ -19,7 +19,13 @@ def run(ctx):
             if a["name"] == "Tag":
                 tagset[(a["t"], a["n"], tuple(a["ts"]))] = a
     # the pure functions on every enumerated (type, length, timestamp) + big lengths
-    steps = [dict(a) for a in tagset.values()]
+    steps = [dict(a) for a in sorted(tagset.values(), key=lambda a: (a["t"], a["n"], a["ts"]))]
+    ctx.rng.shuffle(steps)     # consecutive steps give the (from, to) timestamp pairs of ModTagTimestamp
+    tss = sorted(set(tuple(a["ts"]) for a in steps))
+    for a in tss:              # ... and every ordered pair of pool timestamps explicitly
+        for b in tss:
+            steps.append({"name": "Tag", "t": 9, "n": 5, "ts": list(b)})
+            steps.append({"name": "Tag", "t": 8, "n": 7, "ts": list(a)})
     for n in ([0xFFFFFF] if not ctx.quick else [1 << 20]):
         for ts in ([0, 0], [255, 65535], [65535, 65535]):
             steps.append({"name": "Tag", "t": 9, "n": n, "ts": ts})
@@ -44,7 +50,7 @@ def run(ctx):
         ev = r["event"]
         mode = r["trace"][0].get("mode")
         sig = "%s:%s" % (mode, ev["ev"])
-        if ev["ev"] in ("Tag", "Func"):
+        if ev["ev"] in ("Tag", "Func", "Mod"):
             n, ts = ev["n"], ev["ts"]
             sig += ":len_%s:ts_%s" % ("le125" if n + 15 <= 125 else ("le65535" if n + 15 <= 65535 else "big"),
                                       "hi" if ts[0] >= 256 else "lo")
